@@ -126,6 +126,18 @@ pub fn cases(f: &mut dyn FnMut(Value) -> bool) {
             return;
         }
     }
+    // stability of the natural-order (Ord) variants is only observable with cells whose Ord looks at a
+    // key and ignores a payload: 70 lines, 3 keys (std's unstable sort is an insertion sort up to 20)
+    for seed in 0..6usize {
+        for m in ["sort_row_ord", "sort_col_ord"] {
+            for len in [8usize, 33, 70] {
+                let keys: Vec<usize> = (0..len).map(|k| ((k * (seed + 2) * 5 + k / 4 + seed) % 3) as usize).collect();
+                if !f(json!({"recv": "ordties", "method": m, "keys": keys})) {
+                    return;
+                }
+            }
+        }
+    }
     // wide / tall arrays with many ties
     for seed in 0..8usize {
         for m in METHODS {
@@ -173,9 +185,55 @@ fn transpose(g: &Grid) -> Grid {
     (0..g[0].len()).map(|c| g.iter().map(|row| row[c]).collect()).collect()
 }
 
+/// cell whose natural order looks at `key` only
+#[derive(Clone, Debug, PartialEq, Eq)]
+struct KeyId {
+    key: usize,
+    id: usize,
+}
+impl PartialOrd for KeyId {
+    fn partial_cmp(&self, o: &Self) -> Option<std::cmp::Ordering> {
+        Some(self.cmp(o))
+    }
+}
+impl Ord for KeyId {
+    fn cmp(&self, o: &Self) -> std::cmp::Ordering {
+        self.key.cmp(&o.key)
+    }
+}
+
+fn run_ordties(m: &str, keys: &[usize]) -> Res {
+    use toodee::TooDee;
+    let n = keys.len();
+    let row_m = is_row_method(m);
+    // two lines: the key line (index 0) and a payload line carrying the ids
+    let (c, r) = if row_m { (n, 2) } else { (2, n) };
+    let mut cells = Vec::with_capacity(2 * n);
+    for rr in 0..r {
+        for cc in 0..c {
+            let (line, pos) = if row_m { (rr, cc) } else { (cc, rr) };
+            cells.push(KeyId { key: if line == 0 { keys[pos] } else { 9 }, id: line * 1000 + pos });
+        }
+    }
+    let mut t = TooDee::from_vec(c, r, cells);
+    let got = catch(|| if row_m { t.sort_row_ord::<()>(0) } else { t.sort_col_ord::<()>(0) });
+    check_panic(m, false, got.is_err())?;
+    let mut perm: Vec<usize> = (0..n).collect();
+    perm.sort_by_key(|&k| keys[k]);
+    for (pos, &src) in perm.iter().enumerate() {
+        let (a, b) = if row_m { (t[(pos, 0)].clone(), t[(pos, 1)].clone()) } else { (t[(0, pos)].clone(), t[(1, pos)].clone()) };
+        check_eq(&format!("{} (key-only Ord, {} lines): key line at {}", m, n, pos), &(keys[src], src), &(a.key, a.id))?;
+        check_eq(&format!("{} (key-only Ord, {} lines): payload line at {}", m, n, pos), &(1000 + src), &b.id)?;
+    }
+    Ok(())
+}
+
 pub fn run(case: &Value) -> Res {
     let recv = js(&case["recv"]);
     let m = js(&case["method"]);
+    if recv == "ordties" {
+        return run_ordties(m, &jvec(&case["keys"]));
+    }
     let t = Target::from_json(&case["target"]);
     let index = ju(&case["index"]);
     let keys = jvec(&case["keys"]);
